@@ -17,7 +17,7 @@ PID = "C13"
 C = SECP
 
 # ----------------------------------------------------------------------------- alphabet
-GEN_VARIANTS = [("ok", "A"), ("ok", "B"), ("nosk", "B"), ("rand0", "A"), ("sk0", "A"), ("skn", "B"),
+GEN_VARIANTS = [("ok", "A"), ("ok", "B"), ("nosk", "B"), ("rand0", "A"), ("rand0nosk", "A"), ("sk0", "A"), ("skn", "B"),
                 ("pk0", "A"), ("pnnull", "A"), ("badcache", "B"), ("reuse", "A")]
 CNT_VARIANTS = [("ok", "A"), ("ok", "B"), ("zerokp", "A")]
 SIGN_VARIANTS = [("own", "ok"), ("other", "ok"), ("neg", "ok"), ("zero", "ok"), ("null", "ok"),
@@ -190,13 +190,13 @@ def do_gen(H, op, pos, st):
     pnobj = buf(SZ_PUBNONCE)
     if v == "reuse":
         rnd = H.rand if H.rand is not None else buf(W.secrand(pos))
-    elif v == "rand0":
+    elif v in ("rand0", "rand0nosk"):
         rnd = buf(32)
     else:
         rnd = buf(W.secrand(pos))
     rand_in = rnd.raw
     sk = b32(W.d[key])
-    if v == "nosk":
+    if v in ("nosk", "rand0nosk"):      # all-zero randomness must be refused whether or not a secret key is given
         sk = None
     elif v == "sk0":
         sk = b32(0)
